@@ -238,6 +238,66 @@ def membership_table():
     return table
 
 
+APPLY_SHAPE = """if isinstance(left, AnyType):
+    return right
+elif isinstance(right, AnyType):
+    return left
+left = left.promote() if isinstance(left, LiteralValue) else left
+right = right.promote() if isinstance(right, LiteralValue) else right
+if type(operation) in VALID_BINOP_TYPES:
+    op_lookup = VALID_BINOP_TYPES[type(operation)]
+    if type(left) in op_lookup:
+        op_lookup = op_lookup[type(left)]
+        if type(right) in op_lookup:
+            op_lookup = op_lookup[type(right)]
+            result_type = op_lookup(left, right)
+            return result_type
+return ImpossibleType()"""
+
+
+def promote_table():
+    """Literal* class -> the class promote() returns (parents[0], or what an own promote() builds)"""
+    tree, classes = class_table()
+    out = []
+    for name, c in classes.items():
+        if not any(isinstance(b, ast.Name) and b.id == 'LiteralValue' for b in c.bases):
+            continue
+        target = None
+        for st in c.body:
+            if isinstance(st, ast.FunctionDef) and st.name == 'promote':
+                src = _body_src(st)
+                m = __import__('re').fullmatch(r'return (\w+)\(.*\)', src)
+                if not m:
+                    raise Refusal('%s.promote: %r' % (name, src))
+                target = m.group(1)
+        if target is None:
+            for st in c.body:
+                if isinstance(st, ast.Assign) and any(isinstance(t, ast.Name) and t.id == 'parents' for t in st.targets):
+                    v = st.value
+                    if not (isinstance(v, ast.List) and len(v.elts) >= 1 and isinstance(v.elts[0], ast.Call) and isinstance(v.elts[0].func, ast.Name)):
+                        raise Refusal('%s.parents: %s' % (name, ast.unparse(v)))
+                    target = v.elts[0].func.id
+        if target is None:
+            raise Refusal('no promotion target for %s' % name)
+        out.append((name, target))
+    # the generic promote() of LiteralValue must be  return self.parents[0]
+    lv = classes.get('LiteralValue')
+    pr = [st for st in lv.body if isinstance(st, ast.FunctionDef) and st.name == 'promote'] if lv else []
+    if not pr or _body_src(pr[0]) != 'return self.parents[0]':
+        raise Refusal('LiteralValue.promote changed')
+    return out
+
+
+def gen_apply_text():
+    tree, _ = pymini.load_module(OPS)
+    fn = pymini.find_def(tree, 'apply_binary_operation')
+    if _body_src(fn) != APPLY_SHAPE:
+        raise Refusal('apply_binary_operation no longer has the modelled shape:\n' + _body_src(fn))
+    t = '\n(* GENERATED from apply_binary_operation (shape checked) and the Literal* classes of new_types.py *)\n'
+    t += 'Definition gen_promote : list (string * string) := %s.\n' % clist(['(%s, %s)' % (cstr(a), cstr(b)) for a, b in promote_table()])
+    return t
+
+
 def gen_compare_text():
     skip, order, member = compare_surface()
     t = '\n(* GENERATED from Tifa.visit_Compare (pedal/tifa/tifa_visitor.py) and pedal/types/new_types.py *)\n'
@@ -252,7 +312,7 @@ def gen_compare_text():
 
 
 def translate(ctx):
-    ctx.gen('C19_Gen', lambda: gen_text() + gen_compare_text())
+    ctx.gen('C19_Gen', lambda: gen_text() + gen_compare_text() + gen_apply_text())
 
 
 def run(ctx):
